@@ -41,6 +41,19 @@ Fixpoint k_lines (ls : list bytes) : bytes :=
 Definition k_status (r : kstatus) : bytes :=
   k_lines (ks_pre r) ++ bs "Tgid:" ++ 9 :: ks_tgid r ++ 10 :: ks_post r.
 
+(* the Name: record (fs/proc/array.c task_name -> string_escape_str(ESCAPE_SPACE|ESCAPE_SPECIAL, "\n\\")):
+   of the comm bytes only '\n' and '\\' are escaped, every other byte -- '\r', '\t', '\v', '\f', 0x1c-0x1e,
+   0x85, ':' ... -- is printed raw; the record ends with the only '\n' of the line *)
+Fixpoint k_escape (comm : bytes) : bytes :=
+  match comm with
+  | [] => []
+  | c :: r => if c =? 10 then 92 :: 110 :: k_escape r
+              else if c =? 92 then 92 :: 92 :: k_escape r
+              else c :: k_escape r
+  end.
+Definition k_name_body (comm : bytes) : bytes := bs "Name:" ++ 9 :: k_escape comm.
+Definition k_name_line (comm : bytes) : bytes := k_name_body comm ++ [10].
+
 (* ===================================================================== *)
 (* machine level                                                           *)
 (* ===================================================================== *)
